@@ -26,10 +26,10 @@ CLAIMED = {
          "All sequences over an alphabet of 15-25 timeout messages (every sender x views {v0-1,v0,v0+1,v0+50}, own local timeout, relayed / wrong-view / unsigned view signatures, garbage / absent message signatures and missing QC under the aggregate rule, sync info carrying a TC) delivered to one real replica: unmerged to depth 3 (4) and with canonical-state merging to depth 5-7 (7-9 thorough), both timeout rules, replica at and ahead of the stale view, cache on/off, n=4 (n=7 thorough). Every emitted certificate is verified by all other replicas and fed to a fresh replica.",
          "EdDSA only; the replica under test is never the next leader; repeated certificates for an already certified view are don't-care.", "§4 C08"),
  "C02": ("enum", "bounded-exhaustive enumeration of crafted certificates (signature-descriptor sequences, honest subsets, single and double structural mutations) against validity known by construction",
-         "QC, TC, aggregate QC (+ reported high QC) and proposals via VerifyAnyQC, for ECDSA/EdDSA/BLS12, cache 0/1/8, n in 1..4 exhaustively over descriptor sequences up to length q+1 (valid, foreign-message, relabelled, unknown signer, empty) x claimed view/hash variants, n=7 (5..13 thorough) over all honest subsets of size q-1/q/n and all single+double mutations; each certificate verified cold and warm by a replica that did not build it; completeness through the real Create* API at every replica.",
+         "QC, TC, aggregate QC (+ reported high QC) and proposals via VerifyAnyQC, for ECDSA/EdDSA/BLS12, cache 0/1/8, n in 1..4 exhaustively over descriptor sequences up to length q+1 (valid, foreign-message, relabelled, unknown signer, empty) x claimed view/hash variants, n=7 (5..13 thorough) over all honest subsets of size q-1/q/n and all single+double mutations; each certificate verified cold and warm by a replica that did not build it; completeness through the real Create* API at every replica. BLS rogue-key registration: a Byzantine replica registers x*G minus the other keys with every kind of announced proof of possession (absent, garbage, valid for x*G, each honest replica's proof replayed), forged same-message QC/TC naming all replicas, every honest verifier, cache on/off, before/after honest certificates were verified (n=4; n=7 thorough).",
          "Validity of each signature entry is known by construction; panics are treated as rejection here and reported under C10; BLS limited to n<=7.", "§4 C02"),
- "C11": ("seqmc", "explicit-state search over request sequences issued to a cached and an uncached authority (state = LRU content and order), differential verdict oracle",
-         "Every sequence up to depth 3 (4 thorough) over ~55 requests (sign, verify with replayed/relabelled signatures and other messages, batch-verify with same-concatenation / swapped / other-id batches, combine, QC/TC/AggQC verification incl. relabelled views and swapped QCs, nil signatures) for capacities 1..4 (1..8), all three schemes (BLS one level shallower).",
+ "C11": ("seqmc+schedmc", "explicit-state search over request sequences issued to a cached and an uncached authority (state = LRU content and order), differential verdict oracle",
+         "Every sequence up to depth 3 (4 thorough) over ~55 requests (sign, verify with replayed/relabelled signatures and other messages, batch-verify with same-concatenation / swapped / other-id batches, combine, QC/TC/AggQC verification incl. relabelled views and swapped QCs, nil signatures) for capacities 1..4 (1..8), all three schemes (BLS one level shallower). Concurrent part: every ordered pair of verification requests (at least one rejected by the reference; all pairs thorough) issued from two goroutines to one cached authority, every schedule of the cache's critical sections with <=2 preemptions, capacities 1 and 4, ECDSA/EdDSA.",
          "The uncached authority is the reference; signatures are produced once and given to both.", "§4 C11"),
  "C13": ("seqmc", "exhaustive enumeration of block forests, store/get sequences and commit histories on the real Blockchain and Committer against a reference forest",
          "Extends for all block pairs of every forest with <=5 (6 thorough) blocks incl. forks, equal views on different branches and missing ancestors; every store/re-store/get sequence to depth 5 (6) with honest, lying and silent peers whose replies pass through the real RequestBlockQF; every parent-first store order x every commit history of every forest with <=4 (5) blocks through the real Committer: abort events vs. committed chain, commit order = chain order.",
@@ -44,10 +44,10 @@ CLAIMED = {
          "Generator: all 204 settings with nodes<=5, twins<=2, partitions<=3, views<=4 whose announced count <= 2*10^5 (3*10^6 thorough): yielded == announced, no repetition, two generators agree, EOF is sticky, every view well-formed, shuffle with seeds 0..2 reproducible and a permutation, JSON writer/reader round trip. Executor: all 40^k combinations of commit logs (length<=3 over 3 blocks) for 4 layouts of up to 4 nodes incl. a twin pair vs. a reference 'first position where two non-twin replicas differ'.",
          "Settings above the cap are listed in the evidence as not covered.", "§4 C18"),
  "C10": ("enum", "bounded-exhaustive field grammar of wire messages delivered through the real service handlers and event loop of a running replica, oracle = no panic + protocol state unchanged for messages in which nothing verifies",
-         "~45k messages per configuration (proposal, vote, new-view, timeout, block fetch, Kauri contribution; every optional field absent/present, 7 hash forms, 6 views, 14-17 signature variants per scheme, 4 TC views, AggQC maps nil/empty/id 0/unknown id/nil entry/mixed), each first passed through protobuf marshal/unmarshal, delivered from leader / other / unknown / unidentified peers to a fresh and a certificate-advanced replica, 3 schemes x cache on/off x 3 rulesets; thorough repeats every message from every kind of peer.",
+         "~45k messages per configuration (proposal, vote, new-view, timeout, block fetch, Kauri contribution; every optional field absent/present, 7 hash forms, 6 views, 14-17 signature variants per scheme, 4 TC views, AggQC maps nil/empty/id 0/unknown id/nil entry/mixed/all-genesis; under the aggregate rule additionally every genuine aggregate QC x every block-QC variant), each first passed through protobuf marshal/unmarshal, delivered from leader / other / unknown / unidentified peers to a fresh and a certificate-advanced replica, 3 schemes x cache on/off x 3 rulesets; thorough repeats every message from every kind of peer.",
          "Messages enter at the gorums service implementation, not at a socket; TLS identity is replaced by connection metadata; panics are located by their innermost repository frame.", "§4 C10"),
  "C09": ("seqmc", "exhaustive enumeration of message arrival orders at a real vote collector (clique leader and Kauri tree node) against a reference count of distinct valid voters",
-         "Clique: every permutation of {proposal, 1..3 honest votes} plus every subset of <=2 (3 thorough) of 9 hostile votes (duplicate, forged, other-block, two-signer, own-signature-twice, non-member, unknown block, old block, relabelled) delivered to a fresh replica that is next leader, n=4, EdDSA and ECDSA (n=7 thorough); votes before the proposal take the deferred path. Kauri: every sequence up to length 4 (5) of child contributions {full aggregate, partial, other-block, wrong view, no signature, overlapping} with the aggregation timer at every position, root and interior node, n=4 (7). Every emitted QC / contribution is verified by another replica.",
+         "Clique: every permutation of {proposal, 1..3 honest votes} plus every subset of <=2 (3 thorough) of 9 hostile votes (duplicate, forged, other-block, two-signer, own-signature-twice, non-member, unknown block, old block, relabelled) delivered to a fresh replica that is next leader, n=4, EdDSA and ECDSA (n=7 thorough); votes before the proposal take the deferred path; every order with at most one hostile vote is repeated with a view change by a genuine timeout certificate at every position (the collector has left the block's view). Kauri: every sequence up to length 4 (5) of child contributions {full aggregate, partial, other-block, wrong view, no signature, overlapping} with the aggregation timer at every position, root and interior node, n=4 (7). Every emitted QC / contribution is verified by another replica.",
          "Asynchronous verification (one goroutine per vote) is explored under the controlled scheduler for 4 (5) delivery orders with <=1 (2) preemptions; BLS is not used here.", "§4 C09"),
  "C01": ("clustermc", "explicit-state search over the closed system of real replicas (deviation-bounded + full interleavings at small horizon), invariant monitors on every transition",
          "%s Oracle: per replica the committed sequence is a hash-linked chain from genesis with increasing views and no repeats, any two honest replicas' sequences are prefix-related, CommittedBlock equals the last commit." % E1TEXT, E1NOTE, "§2, §4 C01"),
@@ -61,7 +61,7 @@ CLAIMED = {
  "C07": ("clustermc", "explicit-state search over the closed system of real replicas; monotonicity and evidence monitors on every transition against the ground truth of real signatures",
          "%s Oracle: view, high QC view (and its block's view), high TC view and committed view never decrease; every view increment is signalled by a consecutive ViewChangeEvent and is justified by a ground-truth quorum of votes (block of view >= v) or timeouts (view >= v); every new high QC / high TC is backed by real signatures. Single-replica part: every input sequence to depth 4 (6) over 52 (simple rule) / 154 (aggregate rule) new-view messages, timeout messages and proposals carrying every combination of QC x TC x aggregate QC each in {absent, genuine (two views), sub-quorum, relabelled}, validity known by construction, with and without a signature cache (unmerged, one to two levels shallower)." % E1TEXT, E1NOTE, "§2, §4 C07"),
  "C15": ("schedmc", "exhaustive operation-sequence enumeration and preemption-bounded schedule enumeration of the real CommandCache under a controlled cooperative scheduler (sync/select/go rewritten mechanically), list+mark reference model",
-         "(a) every sequence to depth 5 (6 thorough) over {add(c,s) for 2 clients x 3 sequence numbers, proposed(c,s), get} for batch sizes 1..3, a blocked Get being a scheduler-visible state that must end exactly when the reference has a full batch (or on cancellation); (b) five concurrent scenarios (2 adders, marker, 1-2 getters, canceller): every schedule with <=2 (3) preemptions; oracle: full batches of distinct accepted commands in per-client order, nothing twice, nothing lost, no lost wake-up.",
+         "(a) every sequence to depth 5 (6 thorough) over {add(c,s) for 2 clients x 3 sequence numbers, proposed(c,s), get} for batch sizes 1..3, a blocked Get being a scheduler-visible state that must end exactly when the reference has a full batch (or on cancellation); (b) nine concurrent scenarios (1-2 adders, marker, 1-2 getters, canceller of all requests or of the first request only with a second, never-cancelled request following): every schedule with <=2 (3) preemptions; oracle: full batches of distinct accepted commands in per-client order, nothing twice, nothing lost, no lost wake-up.",
          "Scheduling points are the lock, select and go operations of the rewritten files; unsynchronised accesses are outside this check (the repository's own race-detector tests cover them).", "§3, §4 C15"),
 }
 PENDING = {}  # id -> reason (properties not claimed)
